@@ -32,6 +32,8 @@ inductive Next
   | rb (id : TxId)   -- the rebroadcast goroutine called Config.Broadcast with this tx
   | none             -- no call, and no (further) rebroadcast goroutine alive
   | busy             -- no new call; the earlier rebroadcast is still waiting for its answer
+  | silent           -- a real interval runs, no block event was sent, and no call arrived within a wait of
+                     -- many intervals after the running rebroadcast's last call was answered
 deriving DecidableEq, Repr
 
 inductive Obs
@@ -53,6 +55,10 @@ structure OState where
   known : List Tx := []   -- every tx ever handed to Broadcast (for its parents)
   rb : Option RbObs := none
   stopped : Bool := false
+  /-- the Broadcaster runs on a real, short rebroadcast interval and the harness lets the rounds run
+  freely: a call that follows the complete hand-over of a rebroadcast's snapshot opens the NEXT
+  rebroadcast (started by an interval tick the harness cannot see) -/
+  freeRunning : Bool := false
 deriving Repr
 
 def lookup (known : List Tx) (id : TxId) : Tx :=
@@ -68,6 +74,16 @@ def finishRb (s : OState) (rb : RbObs) : List Fail :=
     [("pending-not-rebroadcast", s!"accepted and unconfirmed {rb.snap} but the rebroadcast sent only {ids rb.sent}")]) ++
   (if topoOk rb.snap rb.sent then [] else
     [("rebroadcast-order", s!"a child was rebroadcast before its parent: order {ids rb.sent}")])
+
+/-- the whole snapshot of the rebroadcast has been handed to the network -/
+def roundComplete (rb : RbObs) : Bool := rb.snap.all ((ids rb.sent).contains ·)
+
+/-- **interval clause**: the running rebroadcast has ended, transactions are accepted and not reported
+confirmed, the Broadcaster has not been stopped — and although many intervals elapsed no rebroadcast
+followed -/
+def stalled (s : OState) : List Fail :=
+  if s.stopped || s.live.isEmpty then [] else
+    [("interval-rebroadcast-stalled", s!"accepted and unconfirmed {s.live}, no rebroadcast running, no block event: the rebroadcast interval elapsed many times and no rebroadcast was started")]
 
 def nextRb (s : OState) (rb : RbObs) (y : TxId) : OState × List Fail :=
   let f1 := if s.stopped then [("rebroadcast-after-stop", s!"tx {y} handed to the network after Stop returned")] else []
@@ -111,7 +127,13 @@ def ostep (s : OState) : Obs → OState × List Fail
     | some rb =>
       let s := if r = .confirmed && !s.stopped then { s with live := s.live.filter (· != id) } else s
       match n with
-      | .rb y => nextRb s rb y
+      | .rb y =>
+        if s.freeRunning && roundComplete rb then
+          -- that rebroadcast is over; `y` is the first call of the one the next tick started
+          let (s', f) := nextRb { s with rb := none } { snap := s.live, sent := [] } y
+          (s', finishRb s rb ++ f)
+        else nextRb s rb y
+      | .silent => ({ s with rb := none }, finishRb s rb ++ stalled s)
       | _ => ({ s with rb := none }, finishRb s rb)
   | .stop hang =>
     ({ s with stopped := true }, if hang then [("stop-hang", "Stop never returned")] else [])
